@@ -485,4 +485,5 @@ RULES = [
 	('14.q', 'no call hands a value named like one parameter of the callee to a different parameter (swapped type-compatible arguments; rules/provenance.py)', lambda F: provenance.swaps_for_property(F, 'C14', '14.q')),
 	('14.k', 'fulfil attribution data through a phantom node: phantom layer innermost, real node\'s layer outermost', r14k),
 	('14.w', 'no length / count is added to or multiplied in an 8/16-bit type and widened afterwards (wrap-around at the top of the range; rules/provenance.py)', lambda F: provenance.narrow_for_property(F, 'C14', '14.w')),
+	('14.z', 'named protocol / policy constants in this property\'s files have their reviewed values (rules/provenance.py)', lambda F: provenance.consts_for_property(F, 'C14', '14.z')),
 ]
